@@ -24,14 +24,39 @@ ASSUMPTIONS = [
 ]
 
 
+class _Held:
+    '''a unit the scheduler released in a dispatch that failed before the
+    farm made its message (injected database fault): it is released *now*,
+    its message follows in a later dispatch'''
+
+    def __init__(self, key):
+        self.jobid, self.target = key
+
+    def __repr__(self):
+        return f'{self.jobid}[{self.target}] (held by the farm for a retry)'
+
+
 def check_event(s, ev, out):
-    if ev['op'][0] == 'tick' and ev.get('released'):
+    held = s.__dict__.setdefault('_c01_held', set())
+    released = []
+    if ev['op'][0] == 'tick':
+        for key in sorted(s.limbo() - held):
+            released.append(_Held(key))
+        for u in ev.get('released') or ():
+            if u.key in held and u.key not in s.limbo():
+                continue  # judged when the scheduler released it
+            released.append(u)
+        held.clear()
+        held.update(s.limbo())
+    if released:
         view = {d['name']: set(d['targets']) for d in s.sched.view_todo()}
-        others = [u for u in s.inflight() if u not in ev['released']]
-        if (others or len(ev['released']) > 1) and s.ref.max_depth() >= 2:
+        others = [u for u in s.inflight() if u not in released]
+        if (others or len(released) > 1) and s.ref.max_depth() >= 2:
             out.nontrivial = True
             out.label('release-while-others-in-flight')
-        for u in ev['released']:
+        if any(isinstance(u, _Held) for u in released):
+            out.label('released-by-a-dispatch-that-failed-half-way')
+        for u in released:
             for a in sorted(s.ref.ancestors[u.jobid]):
                 pend = s.todo(a) | view.get(a, set())
                 execu = s.executing(a)
@@ -67,6 +92,42 @@ def execute(case):
     return sim.run_history(case, check_event, pid=ID)
 
 
+def _retry_cases():
+    '''a full run worked off round by round (dispatch, some replies); in
+    some rounds the run-ID request of the first, second or third job of the
+    batch fails, and before the farm retries an upstream algorithm of
+    something in flight is requested again'''
+    from hypothesis import strategies as st
+
+    from .. import engines
+
+    @st.composite
+    def build(draw):
+        spec = draw(engines.specs(
+            max_algs=6, max_pkgs=2, min_algs=3,
+            kinds=('task', 'task', 'analysis', 'analysis', 'regress')))
+        targets = draw(st.lists(st.sampled_from(sim.TARGET_POOL[:3]),
+                                unique=True, min_size=1, max_size=2))
+        ops = [['reqall']]
+        for _ in range(draw(st.integers(2, 8))):
+            fault = draw(st.integers(0, 2)) == 0
+            if fault:
+                ops.append(['dbfault', draw(st.sampled_from([0, 1, 1, 2]))])
+            ops.append(['tick'])
+            if fault or draw(st.integers(0, 3)) == 0:
+                ops.append(['requp', draw(st.integers(0, 7))])
+            for _ in range(draw(st.integers(0, 3))):
+                ops.append(['rep', draw(st.integers(0, 3)),
+                            draw(st.sampled_from([0, 0, 0, 1])),
+                            draw(st.sampled_from([0, 4095, 5])), 0])
+        ops += [['tick'], ['tick']]
+        return {'spec': spec, 'targets': targets, 'bumped': [],
+                'workers': draw(st.sampled_from([2, 4, 6])), 'ops': ops,
+                'seg': 0}
+
+    return build()
+
+
 def parts(tier):
     q = tier == 'quick'
     return [
@@ -85,6 +146,8 @@ def parts(tier):
                                    'regress')}),
             cases=400 if q else 12500, batch=200,
         ),
+        core.Part('retry', execute, strategy=_retry_cases(),
+                  cases=600 if q else 15000, batch=200),
         core.Part(
             'timers', execute,
             strategy=sim.histories(weights={'rereq': 2, 'timer': 8},
